@@ -91,5 +91,16 @@ Proof.
     + destruct (m * 2 ^ e <? 0) eqn:Es.
       * assert (m < 0) by nia. cbn [fneg]. f_equal. lia.
       * assert (0 < m) by nia. f_equal. lia.
-    + rewrite Z.odd_abs. exact Hc.
+    + replace (Z.odd (Z.abs m)) with (Z.odd m) by (destruct m; reflexivity). exact Hc.
+Qed.
+
+(* tonumber(tostring(x)) = x for every integral binary64 value, with the concrete reader: no oracle *)
+From GL Require Import Text.NumFacts Text.NumLexFacts Text.NumTextFacts.
+
+Lemma tostring_tonumber_integral_lemma : forall fmt x, is_canon x = true -> in_binary64 x -> is_integer x = true ->
+  tonumber_f round_dec (lnumber_string fmt x) None = Some x.
+Proof.
+  intros fmt x Hc Hr Hi. unfold tonumber_f, tonumber, lnumber_string. cbn [Z.eqb Pos.eqb]. rewrite Hi.
+  unfold is_integer in Hi. destruct (int_of_fval x) as [z|] eqn:Ez; [|discriminate].
+  rewrite int_print_parse_lemma. f_equal. now apply round_dec_int_exact_lemma.
 Qed.
